@@ -2,6 +2,7 @@ import GitSizer.Proofs.RefGroups
 import GitSizer.Gen.Flows
 import GitSizer.Proofs.GenStrs
 import GitSizer.Proofs.Regex
+import GitSizer.Proofs.RegexReader
 /-! # C06 — Reference selection follows last-matching-rule semantics
     Theorems about the model of git/ref_filter.go and internal/refopts (tied to the code by the
     `refs` engine: real RefGroupBuilder + pflag + Finish + Categorize). Regular-expression matching
@@ -101,6 +102,18 @@ theorem regexp_entire_name (r : Regex.Re) (w : Bytes) : Regex.matchB r w = true 
 theorem regexp_anchoring_selects_full_matches (r : Regex.Re) (w : Bytes) :
     Regex.Search (.seq .bol (.seq r .eol)) w ↔ Regex.FullMatch r w :=
   Regex.search_anchored_group_iff r w
+
+/-- **… also at the level of the TEXT**: whenever the RE2 reader reads a pattern `p` (without a leading `(?i)`) as
+    `r`, it reads the string that `RegexpFilter` compiles — `"^(?:" ++ p ++ ")$"`, `Regex.wrap p` — as an expression
+    on which a search succeeds exactly for the names that `r` matches entirely. (The reader is compositional at a
+    closing parenthesis: `Proofs/RegexReader.ext_all`, by induction on its fuel through all its look-aheads.) -/
+theorem regexp_text_anchoring (p : Bytes) (r : Regex.Re) (hci : ∀ rest, p ≠ 40 :: 63 :: 105 :: 41 :: rest)
+    (h : Regex.parse p = some r) :
+    ∃ r', Regex.Reads (Regex.wrap p) r' ∧ ∀ w, Regex.Search r' w ↔ Regex.FullMatch r w :=
+  Regex.wrapped_text_selects_full_matches p r (Regex.parse_reads p r hci h)
+
+/-- non-vacuity: `refs/(heads|tags)/v.*` is read, and its wrapped text is read with fuel 29 -/
+example : (Regex.parse (Bytes.ofString "refs/(heads|tags)/v.*")).isSome = true := by decide +kernel
 
 /-- … and the grouping matters (F1, repaired): without it `^a|b$` reads as `(^a)|(b$)`, which a search finds in
     "ax" although neither alternative is the whole name -/
